@@ -365,26 +365,50 @@ func registerIntrinsics(P *Program) {
 	// ---- unsafe builtins appear as calls to ssa.Builtin; handled in callBuiltin ----
 
 	// ---- fmt / errors / debug ----
-	fmtStub := func(fr *frame, args []Value) Value { return Str{S: "<fmt>"} }
-	in["fmt.Sprintf"] = fmtStub
-	in["fmt.Sprint"] = fmtStub
-	in["fmt.Sprintln"] = fmtStub
+	// fmt: formatted for real when every operand is concrete (ints, strings, floats, bools);
+	// symbolic operands are rendered as a placeholder (formatting is never the subject of a claim)
+	in["fmt.Sprintf"] = func(fr *frame, args []Value) Value {
+		return Str{S: fr.m.goSprintf(fr.m.concStrOr(args[0], "%v"), args[1])}
+	}
+	in["fmt.Sprint"] = func(fr *frame, args []Value) Value {
+		return Str{S: fmt.Sprint(fr.m.goArgs(args[0])...)}
+	}
+	in["fmt.Sprintln"] = func(fr *frame, args []Value) Value {
+		return Str{S: fmt.Sprintln(fr.m.goArgs(args[0])...)}
+	}
 	in["fmt.Errorf"] = func(fr *frame, args []Value) Value {
 		m := fr.m
-		msg := "<fmt.Errorf>"
-		if s, ok := args[0].(Str).Concrete(); ok {
-			msg = "fmt.Errorf: " + s
+		return m.newError(m.goSprintf(m.concStrOr(args[0], "%v"), args[1]))
+	}
+	fprint := func(fr *frame, w Value, text string) Value {
+		m := fr.m
+		itf := w.(Iface)
+		if itf.T == nil {
+			m.runtimePanic("invalid memory address or nil pointer dereference (nil io.Writer)")
 		}
-		return m.newError(msg)
+		f := m.P.Prog.LookupMethod(itf.T, nil, "Write")
+		if f == nil {
+			m.unsupported("fmt.Fprint: writer without Write")
+		}
+		buf := make([]Value, len(text))
+		for i := 0; i < len(text); i++ {
+			buf[i] = m.tb.Const(8, uint64(text[i]))
+		}
+		return m.call(fr, m.curPos, f, []Value{itf.V, buf})
 	}
 	in["fmt.Fprintf"] = func(fr *frame, args []Value) Value {
-		return Tuple{fr.m.tb.Const(64, 0), Iface{}}
+		return fprint(fr, args[0], fr.m.goSprintf(fr.m.concStrOr(args[1], "%v"), args[2]))
 	}
-	in["fmt.Fprint"] = in["fmt.Fprintf"]
-	in["fmt.Fprintln"] = in["fmt.Fprintf"]
-	in["fmt.Printf"] = in["fmt.Fprintf"]
-	in["fmt.Println"] = in["fmt.Fprintf"]
-	in["fmt.Print"] = in["fmt.Fprintf"]
+	in["fmt.Fprint"] = func(fr *frame, args []Value) Value {
+		return fprint(fr, args[0], fmt.Sprint(fr.m.goArgs(args[1])...))
+	}
+	in["fmt.Fprintln"] = func(fr *frame, args []Value) Value {
+		return fprint(fr, args[0], fmt.Sprintln(fr.m.goArgs(args[1])...))
+	}
+	noPrint := func(fr *frame, args []Value) Value { return Tuple{fr.m.tb.Const(64, 0), Iface{}} }
+	in["fmt.Printf"] = noPrint
+	in["fmt.Println"] = noPrint
+	in["fmt.Print"] = noPrint
 	in["runtime/debug.Stack"] = func(fr *frame, args []Value) Value { return []Value{} }
 	in["runtime.Gosched"] = func(fr *frame, args []Value) Value {
 		if fr.m.threads != nil {
@@ -510,4 +534,81 @@ func (m *Machine) indexSub(s, sub []*Term) Value {
 		res = tb.Ite(eq, tb.Const(64, uint64(i)), res)
 	}
 	return res
+}
+
+func (m *Machine) concStrOr(v Value, def string) string {
+	if s, ok := v.(Str).Concrete(); ok {
+		return s
+	}
+	return def
+}
+
+// goArgs converts a []interface{} value of the interpreted program into Go values.
+func (m *Machine) goArgs(v Value) []interface{} {
+	sl, _ := v.([]Value)
+	out := make([]interface{}, len(sl))
+	for i, a := range sl {
+		out[i] = m.goValue(a)
+	}
+	return out
+}
+
+func (m *Machine) goValue(a Value) interface{} {
+	itf, ok := a.(Iface)
+	if !ok {
+		return "<?>"
+	}
+	if itf.T == nil {
+		return nil
+	}
+	switch x := itf.V.(type) {
+	case *Term:
+		if !x.IsConst() {
+			return "<sym>"
+		}
+		if x.Sort.Bool {
+			return x.Val == 1
+		}
+		if _, signed, ok := intInfo(itf.T); ok {
+			if signed {
+				return sext(x.Val, x.Sort.W)
+			}
+			return x.Val
+		}
+	case Str:
+		if s, ok := x.Concrete(); ok {
+			return s
+		}
+		return "<sym>"
+	case float64:
+		return x
+	case float32:
+		return x
+	case *FSym:
+		return "<symfloat>"
+	case *Value:
+		// error values
+		if x != nil {
+			if st, ok := (*x).(Struct); ok && len(st) == 1 {
+				if s, ok := st[0].(Str); ok {
+					if c, ok := s.Concrete(); ok {
+						return c
+					}
+				}
+			}
+		}
+		return "<ptr>"
+	}
+	return "<" + itf.T.String() + ">"
+}
+
+func (m *Machine) goSprintf(format string, args Value) string {
+	ga := m.goArgs(args)
+	// placeholders are strings: neutralise numeric verbs for them
+	for _, a := range ga {
+		if s, ok := a.(string); ok && (s == "<sym>" || s == "<symfloat>" || s == "<?>" || s == "<ptr>") {
+			return "<fmt:" + format + ">"
+		}
+	}
+	return fmt.Sprintf(format, ga...)
 }
